@@ -70,6 +70,9 @@ func (p c02) Gen(c *run.Ctx, idx int) (json.RawMessage, error) {
 	if idx%10 == 3 {
 		prof.PVar, prof.PVarNamedID = 0.6, 0.7
 	}
+	if uidx%6 == 4 {
+		prof.HostileAliases, prof.PAlias = true, 0.2
+	}
 	if r.Intn(6) == 0 && cu.mono.Mutation != nil {
 		prof.Kind = ast.Mutation
 	}
